@@ -74,12 +74,13 @@ impl Gen {
     /// an index argument relative to `len`
     fn index(&mut self, len: usize) -> Option<Arg> {
         if self.r.chance(self.bad_pct()) {
-            return match self.r.below(6) {
+            return match self.r.below(7) {
                 0 => rel("len", 1),
                 1 => rel("len", 2),
                 2 => rel("max", 0),
                 3 => rel("imax", 1),
                 4 => rel("cap", 1),
+                5 => rel("cap", 0),
                 _ => rel("max", -1),
             };
         }
@@ -380,11 +381,11 @@ impl Gen {
             let k = if mutc { 6 + self.r.below(4) } else { self.r.below(11) };
             return match k {
                 0 => Op { op: "b_new".into(), ..Default::default() },
-                1 => Op { op: "b_static".into(), a: abs(self.r.below(64)), b: abs(n), ..Default::default() },
+                1 => Op { op: "b_static".into(), a: abs(self.r.below(64)), b: abs(n), mode: self.r.below(3) as i64, ..Default::default() },
                 2 => Op { op: "b_from_vec".into(), a: abs(n), b: abs(self.r.below(4)), mode: (self.r.below(3) == 0) as i64, ..Default::default() },
                 3 => Op { op: "b_from_box".into(), a: abs(n), ..Default::default() },
                 4 => Op { op: "b_copy".into(), a: abs(n), ..Default::default() },
-                5 => Op { op: "b_from_owner".into(), a: abs(n.max(1)), mode: if self.r.chance(10) { 1 } else { 0 }, ..Default::default() },
+                5 => Op { op: "b_from_owner".into(), a: abs(n.max(1)), mode: if self.r.chance(10) { 1 } else if self.r.chance(15) { 2 } else { 0 }, ..Default::default() },
                 6 => Op { op: "m_new".into(), ..Default::default() },
                 7 => Op { op: "m_with_capacity".into(), a: abs(self.r.below(2 * self.maxlen + 1)), ..Default::default() },
                 8 => Op { op: "m_zeroed".into(), a: abs(n), ..Default::default() },
@@ -415,7 +416,7 @@ impl Gen {
                                     _ => Op { op: "b_slice".into(), h, a: rel("len", 1), b: rel("len", 1), ..Default::default() },
                                 }
                             } else {
-                                let mode = if self.r.chance(15) { 1 + self.r.below(2) as i64 } else { 0 };
+                                let mode = if self.r.chance(25) { [1, 2, 4, 5][self.r.below(4)] } else { 0 };
                                 Op { op: "b_slice".into(), h, a: abs(x), b: abs(y), mode, ..Default::default() }
                             }
                         }
